@@ -91,8 +91,9 @@ example : (match mpn_rootrem 3 0 0 4 3 exSt6 with | .error e => e | .ok _ => "ok
     :160-161) is the normalised size (`mul_size`). -/
 theorem mpz_mul_ptr_spec {s : St} (h : Inv s) {w u v : Nat} (hw : w < s.nv) (hu : u < s.nv) (hv : v < s.nv) :
     ∃ s', mpz_mul w u v s = .ok s' ∧ Inv s' ∧ s'.nv = s.nv ∧ s'.value w = s.value u * s.value v ∧
-      ∀ i, i < s.nv → i ≠ w → s'.value i = s.value i :=
-  mpz_mul_ok h hw hu hv
+      ∀ i, i < s.nv → i ≠ w → s'.value i = s.value i := by
+  obtain ⟨s', e, r, _⟩ := mpz_mul_ok h hw hu hv
+  exact ⟨s', e, r⟩
 
 def exSt8 : St := ofInts [2 ^ 200 + 12345, -(2 ^ 130 + 7), 7, 2 ^ 70 + 1]
 /-- variable 0 holds a 2-limb value in a 4-limb block -/
